@@ -731,6 +731,14 @@ func c16GenPattern(w *c16World, r *Rng) string {
 		if len(segs) > 1 {
 			p = segs[0] + "//" + strings.Join(segs[1:], "/")
 		}
+	case 7:
+		// a last element that no listing ever contains: "." and ".." after a directory part with
+		// meta characters match nothing (an lstat of dir/. would find the directory itself)
+		// (only when the directory part has a meta character: a pattern without any is looked up as
+		// a path, and "missing/.." is resolved lexically by BasePathFs but physically by the OS)
+		if strings.ContainsAny(p, "*?[") {
+			p = p + "/" + Pick(r, []string{".", "..", "./.", "../.."})
+		}
 	}
 	return p
 }
